@@ -125,7 +125,7 @@ impl ZoneStore {
         trace!("store resolve");
 
         // Check cache first (short lock scope)
-        {
+        let generation = {
             let mut cache = self.cache.lock().await;
             if let Some(rset) = cache.resolve(pubkey, name, record_type) {
                 debug!(
@@ -134,7 +134,8 @@ impl ZoneStore {
                 );
                 return Ok(Some(rset));
             }
-        }
+            cache.generation
+        };
 
         #[cfg(iroh_verif)]
         iroh_base::verif::pause_async("dnssrv.resolve.after_cache_miss").await;
@@ -145,6 +146,13 @@ impl ZoneStore {
             #[cfg(iroh_verif)]
             iroh_base::verif::pause_async("dnssrv.resolve.after_store_read").await;
             let mut cache = self.cache.lock().await;
+            if cache.generation != generation {
+                // A publish invalidated the cache while we were reading the store, so `packet`
+                // may already be superseded: answer from it, but do not cache it.
+                drop(cache);
+                let zone = CachedZone::from_signed_packet(&packet).anyerr()?;
+                return Ok(zone.resolve(name, record_type));
+            }
             let result = cache.insert_and_resolve(&packet, name, record_type);
             return match result {
                 Ok(Some(rset)) => {
@@ -240,6 +248,9 @@ struct ZoneCache {
     dht_cache: TtlCache<PublicKeyBytes, CachedZone>,
     #[debug("metrics")]
     metrics: Arc<Metrics>,
+    /// Incremented on every invalidation. A lookup that read a packet from the store without
+    /// holding the cache lock uses it to detect that the packet may be stale by now.
+    generation: u64,
 }
 
 impl ZoneCache {
@@ -250,6 +261,7 @@ impl ZoneCache {
             cache,
             dht_cache,
             metrics,
+            generation: 0,
         }
     }
 
@@ -319,6 +331,7 @@ impl ZoneCache {
     }
 
     fn remove(&mut self, pubkey: &PublicKeyBytes) {
+        self.generation = self.generation.wrapping_add(1);
         self.cache.pop(pubkey);
         self.dht_cache.remove(pubkey);
         self.metrics.cache_zones.set(self.cache.len() as i64);
